@@ -302,8 +302,31 @@ def from_grid_frame(case):
             cnt = ite(full, 2 * ns.x - ite(ns.x == w + 1, 1, 0), ite(ns.x <= w, ns.x, w))
             return [length(ns.edges) == row(ns.y) + cnt, ns.y >= 0, ns.y <= h]
 
+        mark = {}
+
+        def head_inner(ns):
+            mark["n"] = len(appended)
+            return None
+
+        def end_inner(ns, token):
+            # completeness per lattice point: exactly its downward and its rightward segment (when they exist), so
+            # every segment of the frame is listed exactly once (each has a unique upper / left end point)
+            new = appended[mark["n"]:]
+            want = []
+            if bool(ns.y != h):
+                want.append(Vs(fr, ns.y, ns.x))
+            if bool(ns.x != w):
+                want.append(Hs(fr, ns.y, ns.x))
+            check("this-point-contributes-exactly-its-down-and-right-segments", len(new) == len(want))
+            if len(new) == len(want):
+                if len(want) == 1:
+                    check("the-contributed-segment-is-the-expected-one", same(new[0], want[0]))
+                elif len(want) == 2:
+                    check("the-contributed-segments-are-the-expected-ones",
+                          Or(And(same(new[0], want[0]), same(new[1], want[1])), And(same(new[0], want[1]), same(new[1], want[0]))))
+
         loop_spec(FGF, 0, inv=inv_outer, modifies=["edges"], types={"edges": "list:ref", "x": "int"})
-        loop_spec(FGF, 1, inv=inv_inner, modifies=["edges"], types={"edges": "list:ref"})
+        loop_spec(FGF, 1, inv=inv_inner, modifies=["edges"], types={"edges": "list:ref"}, at_head=head_inner, at_end=end_inner)
     o = call(REAL(GR, "_from_grid_frame"), fr)
     check("no-exception", not o.raised)
     if o.raised:
